@@ -104,6 +104,8 @@ class FormulaExec:
             if n.id not in self.env:
                 if self.C is not None and self.C.name(n.id) in self.C.cls:
                     return ('clsname', self.C.name(n.id))
+                if self.C is not None and n.id in self.C.consts:
+                    return ('num', self.C.consts[n.id])
                 self.err(n, 'unknown name')
             return self.env[n.id]
         if isinstance(n, ast.Attribute):
@@ -296,6 +298,25 @@ class Classes:
     def __init__(self, tree: ast.Module) -> None:
         self.cls: dict[str, ast.ClassDef] = {}
         self.alias: dict[str, str] = {}
+        # module-level numeric constants (NAME = 0.001 / NAME: Final = 0.001), bound exactly once in the whole module:
+        # a formula that names one reads the literal
+        self.consts: dict[str, Any] = {}
+        bound: dict[str, int] = {}
+        for sub in ast.walk(tree):
+            if isinstance(sub, ast.Name) and isinstance(sub.ctx, (ast.Store, ast.Del)):
+                bound[sub.id] = bound.get(sub.id, 0) + 1
+            elif isinstance(sub, (ast.Global, ast.Nonlocal)):
+                for nm in sub.names:
+                    bound[nm] = bound.get(nm, 0) + 2
+        for n in tree.body:
+            tgt = n.targets[0] if isinstance(n, ast.Assign) and len(n.targets) == 1 else getattr(n, 'target', None) \
+                if isinstance(n, ast.AnnAssign) else None
+            val = getattr(n, 'value', None)
+            if isinstance(tgt, ast.Name) and bound.get(tgt.id) == 1:
+                neg = isinstance(val, ast.UnaryOp) and isinstance(val.op, ast.USub)
+                lit = val.operand if neg else val
+                if isinstance(lit, ast.Constant) and isinstance(lit.value, (int, float)) and not isinstance(lit.value, bool):
+                    self.consts[tgt.id] = -lit.value if neg else lit.value
         for n in tree.body:
             if isinstance(n, ast.ClassDef):
                 self.cls[n.name] = n
@@ -459,9 +480,13 @@ def extract_formulas(C: Classes) -> dict[str, Any]:
         raise TranslateError(f'_to_angle: expected exactly two paths, found {len(paths)}')
     ta: dict[str, Any] = {}
     for conds, stmts in paths:
-        if len(conds) != 1 or not isinstance(conds[0][0], ast.Compare) or len(conds[0][0].ops) != 1:
+        if len(conds) != 1:
             raise TranslateError('_to_angle: expected one comparison guarding the gimbal-lock branch')
         test, taken = conds[0]
+        while isinstance(test, ast.UnaryOp) and isinstance(test.op, ast.Not):      # `if not (a > b)`: the other branch of a > b
+            test, taken = test.operand, not taken
+        if not isinstance(test, ast.Compare) or len(test.ops) != 1:
+            raise TranslateError('_to_angle: expected one comparison guarding the gimbal-lock branch')
         s, a = Obj('s'), Obj(None)
         ex = FormulaExec('_to_angle', {ps[0]: s, ps[1]: a}, C)
         ex.run(stmts)
@@ -481,6 +506,8 @@ def extract_formulas(C: Classes) -> dict[str, Any]:
         if opn not in ('Gt', 'GtE', 'Lt', 'LtE'):
             raise TranslateError(f'_to_angle: guard operator {opn}')
         guard = (gex.num(gex.ev(test.left)), opn, gex.num(gex.ev(test.comparators[0])))
+        if guard[0][0] == 'num' and guard[2][0] != 'num':      # `0.001 < h` is `h > 0.001`
+            guard = (guard[2], {'Gt': 'Lt', 'Lt': 'Gt', 'GtE': 'LtE', 'LtE': 'GtE'}[opn], guard[0])
         if 'guard' in ta and ta['guard'] != guard:
             raise TranslateError('_to_angle: inconsistent guard')
         ta['guard'] = guard
